@@ -30,55 +30,55 @@ META = {
         "technique": "Lean 4 theorems (induction over the record stream) + differential correspondence check on real segment files cut/flipped at every offset",
     },
     "C01": {
-        "text": "Index half proved for every history: lookups, ascending iteration and presence reports of the key map equal the plain ordered map (induction over the op list on top of the index invariant); range reads by C17. The file-content half is tied by comparing every read and the full CAS listing after every step of generated histories (all key types, N, both sync modes) between the real store and the Lean Store model. " + _corr,
+        "text": "Index half proved for every history: lookups, ascending iteration and presence reports of the key map equal the plain ordered map. File half proved over whole sequential histories of Store.lean's scripts: reading any key returns exactly the content the plain map key → content holds, never `missing` (C01_history_reads). Key order of every key kind proved to be a strict total order (keyOrder_strict). Range reads by C17. " + _corr,
         "design_ref": "DESIGN.md §7 C01, §4 P2",
-        "note": "Trusted: Lean kernel; hand model Index/Store; BTreeMap as sorted list under the key order's laws; collision-freeness; store-level file-content invariant not yet a theorem (correspondence).",
+        "note": "Trusted: Lean kernel; hand model Index/Store; Rust Ord on key types = KeyKind.lt on encodings (exercised for 13 key types); H collision-free on the contents that occur; restarts inside histories via C02.",
         "technique": "Lean 4 refinement proof (index ↔ ordered map, induction over histories) + differential correspondence check on API results",
     },
     "C12": {
-        "text": "For every history: no panic site of apply_logical_op is reachable; refcount of each hash = number of keys mapped to it; known blobs = referenced hashes; unique_blobs/total_bytes equal what recompute_stats computes from scratch; each recorded size = content size. Lean theorems by induction over operations. " + _corr,
+        "text": "For every history: no panic site of apply_logical_op is reachable; refcount of each hash = number of keys mapped to it; known blobs = referenced hashes; unique_blobs/total_bytes equal what recompute_stats computes from scratch; each recorded size = content size; the same invariant holds after loading a snapshot (load_saved) and after WAL replay (logical_map_eq_recover). Lean theorems by induction over operations. " + _corr,
         "design_ref": "DESIGN.md §7 C12, §4 P2",
         "note": "Trusted: Lean kernel; Index.lean model; naturals for u32/u64 counters; restart/crash half tied by correspondence.",
         "technique": "Lean 4 invariant proof (IdxInv preserved by apply_logical_op) + differential correspondence check",
     },
     "C07": {
-        "text": "The list of hashes returned for deletion is proved to be exactly those that lost their last reference, for every state and operation; abandoned transactions provably leave no file. That the store unlinks exactly that list and nothing else is tied by comparing cas/ and staging/ listings after every step with the model and with the oracle's set of referenced contents. " + _corr,
+        "text": "Concurrent: after ANY schedule of ANY programs, whenever all threads are idle the CAS directory holds a file for a hash iff some key references it (C07_quiescent_exact; protection counts equal the number of commits in their window). Sequential: over whole histories every referenced content has its file with exactly its bytes (runOps_sinv); apply_logical_op returns exactly the hashes that lost their last reference; abandoned transactions leave no file. That the real store unlinks exactly that list is tied by comparing cas/ and staging/ listings after every step / schedule. " + _corr,
         "design_ref": "DESIGN.md §7 C07",
-        "note": "Trusted: Lean kernel; Store.lean scripts for the filesystem half; quiescent, fault-free histories.",
+        "note": "Trusted: Lean kernel; Conc.lean at yield-point granularity; Store.lean scripts; quiescent, fault-free histories; no descriptor keeps an unlinked staging file alive (observed).",
         "technique": "Lean 4 theorem on the unreferenced-hash list + differential correspondence on directory listings",
     },
     "C13": {
-        "text": "Frame theorem over the filesystem model: begin/write*/abort leaves every file other than the private staging file, every directory, untouched and removes the staging file — for every disk. " + _corr,
+        "text": "Frame theorem over the filesystem model: begin/write*/abort leaves every file other than the private staging file, every directory, untouched and removes the staging file — for every disk; concurrent: an abandoned transaction changes nothing shared whatever the other threads do (C13_abort_invisible). Observed: no descriptor keeps an unlinked staging file alive; leftovers after a kill are reported and removed. " + _corr,
         "design_ref": "DESIGN.md §7 C13",
         "note": "Trusted: Lean kernel; Fs.lean semantics; memory untouched before finish by inspection + comparison.",
         "technique": "Lean 4 frame lemma over the Fs model + differential correspondence on histories with aborts at every position",
     },
     "C02": {
-        "text": "Record-level theorem over ALL action sequences (appends, snapshot installs, prunes, opens, closes, crashes; every N): while open, memory = state after the logged history; close+open reproduces it and continues with a fresh version. Byte/syscall level tied by trace + on-disk-bytes + API comparison after every step and reopen. " + _corr,
+        "text": "Byte level (Lean theorems over Store.lean's event scripts): closing a handle and opening the directory again reads the log without panic and yields exactly the key map memory held, with memory and disk tied again (C02_reopen_transparent_bytes); the scripts are runs of the record-level machine event by event (logAndApply_sim, checkpoint_sim, open_sim), the index file loads back to the state it was taken from (load_saved). Record level: for ALL action sequences memory = state after the logged history. " + _corr,
         "design_ref": "DESIGN.md §7 C02, §4 P3",
-        "note": "Trusted: Lean kernel; WalMachine mirrors the manager logic; Store.lean scripts ↔ actions by correspondence.",
+        "note": "Trusted: Lean kernel; hand model Store.lean; that the REAL code issues the script's calls: syscall-trace, on-disk-bytes and API comparison after every step and reopen; hypotheses SaveOK / version bounds; blobs and statistics across the reopen via C07/C12.",
         "technique": "Lean 4 invariant proof over a record-level WAL state machine + differential correspondence incl. syscall traces",
     },
     "C03": {
-        "text": "Record-level theorem: after ANY prefix of ANY action sequence (crash anywhere, incl. during initialisation and nested inside recovery) open succeeds and yields exactly the state after the records appended so far (acked, or acked + the single in-flight record), never reusing a version. Byte level: kill-mode crash images at every mutating call, reopened by real code and model. " + _corr,
+        "text": "Byte level (Lean theorems over Store.lean's event scripts, every state tied to the record-level machine, every cut position, every N / key kind): cut a commit's script after any number of filesystem events — recovery succeeds without panic and returns the old key map or the old one with exactly this operation (C03_commit_crash_atomic_bytes); cut the recovery itself anywhere and recover again: same alternative, tied again (C03_nested_crash_bytes); checkpoints and the whole put script likewise. Record level: after ANY prefix of ANY action sequence open yields the state after the records appended so far. " + _corr,
         "design_ref": "DESIGN.md §7 C03, §4 P3",
-        "note": "Trusted: Lean kernel; process-kill crash model; scripts ↔ actions by trace correspondence; codec theorems C16/C10 connect records to bytes.",
+        "note": "Trusted: Lean kernel; process-kill crash model (calls atomic, completed calls persist); hand model; that the REAL syscall sequence is the script's: kill before every mutating call of a targeted operation, crash image reopened by real code and model; blob ordering (rename before record, unlink after) per script + trace.",
         "technique": "Lean 4 invariant proof (ghost history / recovery theorem) + crash-point enumeration differential check via LD_PRELOAD interposer",
     },
     "C20": {
-        "text": "Record-level invariant proved for every reachable state: strictly increasing never-reused versions, placement in segment (v-1)/N, ordered segments, snapshot = state up to its version, all logged records above it present. The Lean driver is the independent reader of the real bytes at every crash image. " + _corr,
+        "text": "Byte level: after every prefix of a commit's script the segment files decode, in id order, to the machine's segments, every record sits in segment (v-1)/N, versions strictly increase, the index file loads to the state after the records up to its version and every logged record above it is present (C20_commit_wellformed_bytes). Record level: the same invariant for every reachable state of every action sequence. The Lean driver is the independent reader of the real bytes at every crash image. " + _corr,
         "design_ref": "DESIGN.md §7 C20",
         "note": "Trusted: as C03.",
         "technique": "Lean 4 invariant proof over the WAL state machine + independent decoding of real on-disk bytes at every crash point",
     },
     "C06": {
-        "text": "Proved over the event scripts: no event creates-empty/writes/truncates a CAS path, every other event leaves a blob's bytes alone, and the rename publishes the whole staged content at once; readers keep their inode. Observed on the real code at intermediate instants: BLAKE3 of every CAS file at every crash point and scheduling step. " + _corr,
+        "text": "Proved over whole scripts: at EVERY prefix of a put / remove / remove_range / checkpoint script every file in cas/ holds bytes hashing to its name (C06_put_all_prefixes, C06_commit_all_prefixes): no event creates-empty/writes/truncates a CAS path, the only way in is one rename of a completely written staging file; concurrent: ConcInv.files for every schedule. Observed on the real code at intermediate instants: BLAKE3 of every CAS file at every crash point and scheduling step. " + _corr,
         "design_ref": "DESIGN.md §7 C06",
         "note": "Trusted: Lean kernel; Fs.lean (assumed OS semantics); scripts ↔ real syscalls by trace comparison.",
         "technique": "Lean 4 syntactic + frame theorems over event scripts + crash-point / schedule observation of CAS contents",
     },
     "C19": {
-        "text": "For EVERY disk and configuration: if stored version ≠ 4 or stored num_ops_per_wal ≠ requested, open fails with the matching error having issued only pre-gate events (mkdir of the two top-level dirs, open+flock of LOCK); no other file changes. Lean theorem over openScript. " + _corr,
+        "text": "For EVERY disk and configuration: if stored version ≠ 4 or stored num_ops_per_wal ≠ requested, open fails with the matching error having issued only pre-gate events (mkdir of the two top-level dirs, open+flock of LOCK); no other file changes (C19_gate); an accepted open uses the STORED pre-creation flag and creates no directory tree (C19_precreate_remembered). " + _corr,
         "design_ref": "DESIGN.md §7 C19",
         "note": "Trusted: Lean kernel; serde_json abstracted to the canonical rendering; unchanged-data-after-correct-open via C02.",
         "technique": "Lean 4 theorem over the open script + differential check with directory dumps around rejected opens",
@@ -90,9 +90,9 @@ META = {
         "technique": "Lean 4 theorems on the open script (lock-first) + process/thread race exercise through the interposer",
     },
     "C15": {
-        "text": "For all programs, thread counts and schedules of the interleaving model: lock invariant, lock order intents < state (< wal), and no reachable deadlock (some thread can always step while work remains). " + _corr + " Every forced schedule on the real code must also complete under a watchdog.",
+        "text": "For all programs, thread counts and schedules of the interleaving model: lock invariant, lock order intents < state (< wal), no reachable deadlock (C15_no_deadlock), no infinite execution (C15_no_infinite_run: every step decreases a lexicographic measure), hence every strategy that keeps picking runnable threads finishes all calls (C15_all_calls_return). " + _corr,
         "design_ref": "DESIGN.md §7 C15, §4 P5",
-        "note": "Trusted: Lean kernel; Conc.lean model at yield-point granularity; fairness and per-op step bound not formalised.",
+        "note": "Trusted: Lean kernel; Conc.lean model at yield-point granularity; rwlock treated as exclusive; fairness of the real locks towards one thread and time per step not modelled; real deadlocks are reported with their schedule (watchdog).",
         "technique": "Lean 4 invariant + progress proof over an interleaving model + forced-schedule correspondence via yield-point hooks",
     },
     "C04": {
@@ -102,21 +102,21 @@ META = {
         "technique": "Lean 4 inductive-invariant proof over an interleaving model + forced-schedule correspondence via yield-point hooks",
     },
     "C05": {
-        "text": "Proved for every reachable state of every schedule: a read returns absent iff the key is absent at its lookup, else the complete content of the blob indexed at that instant, and never fails because of a concurrent writer. Real-time-respecting sequential order of the writes is checked per forced schedule by a linearizability checker on the real results. " + _corr,
+        "text": "Proved for every reachable state of every schedule: a read returns absent iff the key is absent at its lookup, else the complete content of the blob indexed at that instant, never failing because of a concurrent writer (C05_read_atomic); after any schedule the index is the sequential application of the writes in the order of their apply steps, each inside its call (C05_writes_linearize). The real results of every forced schedule are additionally judged by a brute-force linearizability checker. " + _corr,
         "design_ref": "DESIGN.md §7 C05",
-        "note": "Trusted: as C04; the linearization of writes is by construction of the model (one atomic apply per op) and checked, not separately proved.",
+        "note": "Trusted: as C04; remove/remove_range are two-point operations (scan, then removal of the scanned keys), as documented.",
         "technique": "Lean 4 theorem over the interleaving invariant + forced-schedule correspondence with a linearizability oracle",
     },
     "C08": {
-        "text": "For every tree of regular files below cas/ and every index the scan's orphaned / missing / corrupted / invalid lists are proved to be exactly the sets the property describes (repaired scan); clean-up unlinks are part of the interleaving invariant (never a referenced or in-commit blob). Completeness of clean-up and behaviour on real crash images and planted garbage are compared with the model and an independent directory/index comparison. " + _corr,
+        "text": "For every tree of regular files below cas/ and every index the scan's orphaned / missing / corrupted / invalid lists are proved to be exactly the sets the property describes; sequential clean-up with the scan of the same directory removes every unreferenced blob, stray and staging file and no referenced blob (C08_cleanup_restores_exactness); under concurrency clean-up never deletes a referenced or in-commit blob and concurrent operation never adds garbage. Behaviour on real crash images and planted garbage is compared with the model and an independent oracle. " + _corr,
         "design_ref": "DESIGN.md §7 C08",
         "note": "Trusted: Lean kernel; Orphan.lean; regular files only; BLAKE3 implementations.",
         "technique": "Lean 4 classification theorems over arbitrary file trees + interleaving invariant for clean-up + differential checks on planted garbage, crash images and forced schedules",
     },
     "C09": {
-        "text": "Sync-ordering protocol proved over the event scripts for all inputs: staged blob synced before rename into cas/, snapshot synced before it replaces index and segments pruned only after, each record written in one piece and synced before anything is deleted or acknowledged; power loss leaves fully synced files untouched. Composition with the record-level crash theorem gives the property per operation; whole-history composition is tied by rebuilding loss images from the REAL syscall trace (incl. sync events) at every cut and reopening them. " + _corr,
+        "text": "Byte level (Lean theorems): power loss — any set of files loses everything after its last sync, directory operations persist in order — at ANY cut of a commit, of a whole put, or of a checkpoint leaves an image that recovery reads without panic as the old key map or the old one with exactly this operation (C09_commit/put/checkpoint_power_loss_bytes); scripts obey the sync discipline (a write to a WAL file is followed at once by its sync) and leave all WAL files fully synced; a committed blob is complete and synced before its record is written. " + _corr,
         "design_ref": "DESIGN.md §7 C09",
-        "note": "Trusted: Lean kernel; the property's own loss model; fdatasync semantics; no real power loss can be run.",
+        "note": "Trusted: Lean kernel; the property's own loss model; fdatasync semantics; no real power loss can be run (loss images are rebuilt from the real syscall trace incl. sync events). Not covered by theorem: power loss during open, repeated power losses.",
         "technique": "Lean 4 theorems on sync ordering in event scripts + power-loss image reconstruction from traced syscalls",
     },
     "C14": {
